@@ -14,9 +14,9 @@ from sv import core
 
 PROPERTY = "C10"
 GEN = ["ThresholdWeighted"]
-PROPS = ["ScoresVerif/Props/C10.lean", "ScoresVerif/Props/C10Bridge.lean"]
+PROPS = ["ScoresVerif/Props/C10.lean", "ScoresVerif/Props/C10Bridge.lean", "ScoresVerif/Props/C10Model.lean"]
 DRIVER_DEPS = ["ScoresVerif.Driver.C10", "ScoresVerif.Driver.C10Spec"]
-AUDIT_FILES = ["ScoresVerif/Lemmas/Quad.lean", "ScoresVerif/Lemmas/Bridge.lean", "ScoresVerif/Lemmas/ThresholdWeighted.lean", "ScoresVerif/Spec/Quad.lean",
+AUDIT_FILES = ["ScoresVerif/Lemmas/Quad.lean", "ScoresVerif/Lemmas/Bridge.lean", "ScoresVerif/Lemmas/ThresholdWeighted.lean", "ScoresVerif/Lemmas/C10Model.lean", "ScoresVerif/Spec/Quad.lean",
                "ScoresVerif/Spec/ThresholdWeighted.lean", "ScoresVerif/Model/ThresholdWeighted.lean",
                "ScoresVerif/Driver/C10.lean", "ScoresVerif/Driver/C10Spec.lean"]
 LEVEL = "proof"
